@@ -237,26 +237,57 @@ theorem subsOK_insertSubscription (m m' : Mgr) (sid uid : Id) (s : SubId) (c : C
     · subst e; rw [alookup_cons_self] at hs'; simp at hs'; exact absurd hs'.symm hne
     · rw [alookup_cons_ne _ _ _ _ e] at hs'; exact hinj s' hs'
 
-/-- `remove_subscription` / `unsubscribe`: the reverse-index entry goes, the request entry is
-erased resp. overwritten by a non-subscription -/
-theorem subsOK_drop_sub (m : Mgr) (rid : Id) (s : SubId) (reqs' : List (Id × Kind)) (h : SubsOK m)
-    (hl : alookup s m.subs = some rid)
-    (hr : ∀ k, k ≠ rid → alookup k reqs' = alookup k m.requests) :
-    SubsOK { m with requests := reqs', subs := aerase s m.subs } := by
-  intro s0 rid0 hl0
-  simp only at hl0 ⊢
-  have hs0 : s0 ≠ s := by intro e; subst e; simp [alookup_aerase_self] at hl0
-  rw [alookup_aerase_ne _ _ _ hs0] at hl0
-  obtain ⟨⟨uid', c', um', hq⟩, hinj⟩ := h s0 rid0 hl0
-  have hne : rid0 ≠ rid := by
-    intro e; subst e
-    exact hs0 ((h s rid0 hl).2 s0 hl0)
-  refine ⟨⟨uid', c', um', by rw [hr _ hne]; exact hq⟩, ?_⟩
-  intro s' hs'
-  have : s' ≠ s := by intro e; subst e; simp [alookup_aerase_self] at hs'
-  rw [alookup_aerase_ne _ _ _ this] at hs'
-  exact hinj s' hs'
+/-- `SubsOK` depends only on the reverse index and on where the `.sub` entries are: it carries over
+to any manager whose reverse index is contained in the old one and in which every subscription entry
+that is still referenced is unchanged -/
+theorem subsOK_transfer {m m' : Mgr} (h : SubsOK m)
+    (hs : ∀ s rid, alookup s m'.subs = some rid → alookup s m.subs = some rid)
+    (hq : ∀ s rid, alookup s m'.subs = some rid → ∀ uid c um,
+      alookup rid m.requests = some (.sub uid c um) → alookup rid m'.requests = some (.sub uid c um)) :
+    SubsOK m' := by
+  intro s rid hl
+  obtain ⟨⟨uid, c, um, hq0⟩, hinj⟩ := h s rid (hs s rid hl)
+  exact ⟨⟨uid, c, um, hq s rid hl uid c um hq0⟩, fun s' hs' => hinj s' (hs s' rid hs')⟩
 
+theorem subsOK_release (m : Mgr) (id : Id) (h : SubsOK m) : SubsOK (m.releaseReservedSlot id) := by
+  refine subsOK_transfer h ?_ ?_
+  · intro s rid hl; rw [(releaseReservedSlot_others m id).1] at hl; exact hl
+  · intro s rid _ uid c um hq
+    exact (alookup_releaseReservedSlot m id rid (.sub uid c um) (by simp)).2 hq
+
+/-- the manager after `remove_subscription` -/
+theorem subsOK_removed (m : Mgr) (rid uid : Id) (s : SubId) (h : SubsOK m) (hl : alookup s m.subs = some rid) :
+    SubsOK (removedMgr m rid uid s) := by
+  have hsub := (removedMgr_others m rid uid s).1
+  have key : ∀ s0 rid0, alookup s0 (removedMgr m rid uid s).subs = some rid0 →
+      alookup s0 m.subs = some rid0 ∧ rid0 ≠ rid := by
+    intro s0 rid0 h0
+    rw [hsub] at h0
+    have hs0 : s0 ≠ s := by intro e; subst e; simp [alookup_aerase_self] at h0
+    rw [alookup_aerase_ne _ _ _ hs0] at h0
+    refine ⟨h0, ?_⟩
+    intro e; subst e
+    exact hs0 ((h s rid0 hl).2 s0 h0)
+  refine subsOK_transfer h (fun s0 rid0 h0 => (key s0 rid0 h0).1) ?_
+  intro s0 rid0 h0 uid' c um hq
+  exact (removedMgr_alookup m rid uid s rid0 (.sub uid' c um) (by simp) (key s0 rid0 h0).2).2 hq
+
+/-- the manager after `unsubscribe` -/
+theorem subsOK_unsub (m : Mgr) (rid uid : Id) (s : SubId) (h : SubsOK m) (hl : alookup s m.subs = some rid) :
+    SubsOK (unsubMgr m rid uid s) := by
+  have hsub := (unsubMgr_others m rid uid s).1
+  have key : ∀ s0 rid0, alookup s0 (unsubMgr m rid uid s).subs = some rid0 →
+      alookup s0 m.subs = some rid0 ∧ rid0 ≠ rid := by
+    intro s0 rid0 h0
+    rw [hsub] at h0
+    have hs0 : s0 ≠ s := by intro e; subst e; simp [alookup_aerase_self] at h0
+    rw [alookup_aerase_ne _ _ _ hs0] at h0
+    refine ⟨h0, ?_⟩
+    intro e; subst e
+    exact hs0 ((h s rid0 hl).2 s0 h0)
+  refine subsOK_transfer h (fun s0 rid0 h0 => (key s0 rid0 h0).1) ?_
+  intro s0 rid0 h0 uid' c um hq
+  exact (unsubMgr_alookup m rid uid s rid0 (.sub uid' c um) (by simp) (by simp) (key s0 rid0 h0).2).2 hq
 
 theorem processSubscriptionClose_subsOK (st : Core) (s : SubId) (h : SubsOK st.mgr) :
     SubsOK (processSubscriptionClose st s).mgr := by
@@ -272,45 +303,42 @@ theorem processSubscriptionClose_subsOK (st : Core) (s : SubId) (h : SubsOK st.m
       obtain ⟨_, _, e⟩ := removeSubscription_spec _ _ _ _ _ _ _ h2
       subst e
       simp only [modChan_mgr]
-      exact subsOK_drop_sub st.mgr rid s _ h h1 (fun k hk => alookup_aerase_ne _ _ _ hk)
+      exact subsOK_removed st.mgr rid uid s h h1
 
 theorem buildUnsub_subsOK (st : Core) (rid : Id) (s : SubId) (st' : Core) (msg : FrontMsg) (h : SubsOK st.mgr)
     (hl : alookup s st.mgr.subs = some rid) (hb : buildUnsubscribeMessage st rid s = some (st', msg)) :
     SubsOK st'.mgr := by
   obtain ⟨uid, c, um, _, _, hm, _⟩ := buildUnsub_spec st rid s st' msg hb
   rw [hm]
-  exact subsOK_drop_sub st.mgr rid s _ h hl (fun k hk => alookup_areplace_ne _ _ _ _ hk)
+  exact subsOK_unsub st.mgr rid uid s h hl
 
 theorem completeSubscribe_subsOK (st : Core) (r : Response) (uid : Id) (t : Ticket) (um : Text) (h : SubsOK st.mgr) :
     SubsOK (completeSubscribe st r uid t um).1.mgr := by
   unfold completeSubscribe
   cases hp : r.payload with
-  | error e => exact h
+  | error e => exact subsOK_release _ _ h
   | result raw =>
     simp only
     cases hd : decodeSubId raw with
-    | none => exact h
+    | none => exact subsOK_release _ _ h
     | some s =>
       simp only
       cases hins : st.mgr.insertSubscription r.id uid s st.chans.length um with
-      | none => exact h
+      | none => exact subsOK_release _ _ h
       | some m' =>
         have h' : SubsOK m' := subsOK_insertSubscription _ _ _ _ _ _ _ h hins
-        obtain ⟨_, _, e⟩ := insertSubscription_spec _ _ _ _ _ _ _ hins
         simp only
         by_cases hal : st.alive t = true
         · simp only [hal, if_true]; exact h'
-        · simp only [hal]
+        · simp only [hal, Bool.false_eq_true, if_false]
           unfold abandonedSubscribe
-          generalize hst : (({ st with mgr := m' }.newChan (.sub s) t.op uid).1.modChan st.chans.length
-              (fun ch => { dropReceiver ch with hasKind := false })) = stx
-          have hmx : stx.mgr = m' := by rw [← hst]; rfl
-          cases hb : buildUnsubscribeMessage stx r.id s with
-          | none => simp only [Bool.false_eq_true, if_false]; rw [hmx]; exact h'
-          | some x =>
-            obtain ⟨st', msg⟩ := x
-            simp only [Bool.false_eq_true, if_false]
-            exact buildUnsub_subsOK stx _ _ _ _ (hmx ▸ h') (by rw [hmx, e]; exact alookup_cons_self _ _ _) hb
+          exact h'
+
+theorem completePendingCall_subsOK (m m' : Mgr) (id : Id) (t : Option Ticket) (h : SubsOK m)
+    (hc : m.completePendingCall id = some (m', t)) : SubsOK m' := by
+  rcases completePendingCall_spec m id m' t hc with ⟨hl, e⟩ | ⟨rid, hl, _, e⟩
+  · rw [e]; exact subsOK_erase_req _ _ h (by intro a b c; rw [hl]; simp)
+  · rw [e]; exact subsOK_release _ _ (subsOK_erase_req _ _ h (by intro a b c; rw [hl]; simp))
 
 theorem processSingleResponse_subsOK (st st' : Core) (r : Response) (effs : List Effect) (h : SubsOK st.mgr)
     (hp : processSingleResponse st r = .ok (st', effs)) : SubsOK st'.mgr := by
@@ -322,11 +350,10 @@ theorem processSingleResponse_subsOK (st st' : Core) (r : Response) (effs : List
     | none => simp [hc] at hp
     | some x =>
       obtain ⟨m', t⟩ := x
-      obtain ⟨hl, e⟩ := completePendingCall_spec _ _ _ _ hc
+      have hm' := completePendingCall_subsOK _ _ _ _ h hc
       have hm : st'.mgr = m' := by
         cases t <;> simp [hc] at hp <;> rw [← hp.1] <;> rfl
-      rw [hm, e]
-      exact subsOK_erase_req _ _ h (by intro a b c; rw [hl]; simp)
+      rw [hm]; exact hm'
   | pendingSub =>
     simp only [hs] at hp
     cases hc : st.mgr.completePendingSubscription r.id with
